@@ -322,3 +322,48 @@ func zzH_C20_tip_is_committed(t *zzT) {
 	}
 	t.Reach("end")
 }
+
+// C20 "bulk lookups (… blocks by range) return every existing item exactly once" and "free of … ordering
+// deadlocks" at the size the node really serves: the P2P getBlocksFromId handler asks for up to 103 blocks.
+// A range of N blocks outside the block cache, each with one transaction (so that the per-height worker fans
+// out again for the transactions): the lookup returns, with every block and transaction of the range in
+// ascending order. Deterministic schedule; a worker pool or semaphore shared by the nested fan-outs that
+// runs out at this size shows as a deadlock. (seed C20-6: a shared 64-slot semaphore taken by the per-height
+// workers AND by their per-transaction workers.)
+//
+//zz:opt loop=400 gor=600 join=1 lockdiscipline=off steps=60000000 budget=600s
+//zz:quick N=70
+//zz:thorough N=103
+func zzH_C20_blocks_range_served_size(t *zzT) {
+	n := t.Param("N", 70)
+	rounds := 1
+	if !t.Symbolic() {
+		// natively the schedule cannot be steered: the served size, many rounds, and a second range lookup
+		// running concurrently (as two peers asking at the same time)
+		n, rounds = 103, 40
+	}
+	d, blocks := zz20Store(t, n, 1)
+	for r := 0; r < rounds; r++ {
+		var wg sync.WaitGroup
+		if !t.Symbolic() {
+			wg.Add(1)
+			go func() {
+				defer wg.Done()
+				_, _ = d.GetBlocksBetweenHeight(1, uint32(n))
+			}()
+		}
+		bs, err := d.GetBlocksBetweenHeight(1, uint32(n))
+		t.Assert(err == nil && len(bs) == n, "a range lookup of the served size returns every block of the range")
+		if err == nil && len(bs) == n {
+			ok := true
+			for i := range bs {
+				if !bytes.Equal(bs[i].Header.ID, blocks[i].Header.ID) || len(bs[i].Transactions) != 1 || !bytes.Equal(bs[i].Transactions[0].ID, blocks[i].Transactions[0].ID) {
+					ok = false
+				}
+			}
+			t.Assert(ok, "every block with its transaction, in ascending height order")
+		}
+		wg.Wait()
+	}
+	t.Reach("end")
+}
